@@ -172,7 +172,8 @@ Definition new_result_optgroup (dec : bool) (t : gty) (o : ropts) (g : grouptag)
     pbind (as_types t (ro_as o)) (fun ats =>
       let ty0 := match ats with a :: _ => a | [] => t end in
       let rest := match ats with _ :: r => r | [] => [] end in
-      if pg_soft pg then PErr 38
+      if negb (nodupb gty_eqb ats) then PErr 42        (* an interface listed twice in dig.As of a grouped result *)
+      else if pg_soft pg then PErr 38
       else if pg_flatten pg then
         if negb (kind_eqb (kind_of t) KSlice) then PErr 39
         else if negb (is_nil ats) then PErr 40          (* As cannot be combined with flatten *)
